@@ -2712,6 +2712,8 @@ impl InferContext {
                         }
                         let assignee_t =
                             self.unwrap_result(self.lookup(name, loc).map_err(|e| vec![e]));
+                        // MIR generation converts the assigned value to the type of the variable
+                        self.result_memo.insert(assignee.0, assignee_t);
                         let e_t = self.infer_type_unwrapping(*expr);
                         let _rel = self.unify_types(assignee_t, e_t)?;
                         Ok(unit!())
